@@ -246,7 +246,7 @@ PRELUDE = r'''
 '''
 
 
-def render(scn, stall=20):
+def render(scn, stall=8):
     caps = scn["caps"]
     o = [PRELUDE]
     o.append("(def chans [%s])" % " ".join("(ev/thread-chan %d)" % c for c in caps))
